@@ -12,6 +12,7 @@ import (
 	"github.com/gcash/bchutil/base58"
 	"github.com/gcash/bchutil/bech32"
 
+	al "verif/harness/cmd/c01/addrlib"
 	"verif/harness/internal/vh"
 )
 
@@ -21,6 +22,25 @@ const bechCharset = "qpzry9x8gf2tvdw0s3jn54khce6mua7l"
 var cfg vh.Config
 var rep *vh.Report
 var cases *vh.Cases
+
+// replays holds a sample of earlier calls; they are repeated at the very end of the run and must give
+// the same answer (package-level state left over between calls would show here).
+type replayCall struct {
+	what string
+	run  func() string
+	want string
+}
+
+var replays []replayCall
+
+// fam names the generator family currently running; it is part of every histogram key
+var fam = "init"
+
+func remember(what string, run func() string) {
+	if len(replays) < 4000 && (len(replays) < 400 || len(what)%7 == 0) {
+		replays = append(replays, replayCall{what, run, run()})
+	}
+}
 
 func sha256d(b []byte) []byte {
 	h := sha256.Sum256(b)
@@ -51,7 +71,16 @@ func b58Encode(b []byte, corr bool) string {
 	before := append([]byte(nil), backing...)
 	s := base58.Encode(in)
 	pure("base58.Encode", before, backing, vh.Hex(b))
-	rep.Count("b58enc", "e"+string(b), len(b) > 0)
+	rep.Count("b58enc:"+fam, "e"+string(b), len(b) > 0)
+	if len(b) <= 64 {
+		bc := append([]byte(nil), b...)
+		remember("base58.Encode("+vh.Hex(bc)+")", func() string { return base58.Encode(bc) })
+	}
+	// monitor: the string is the one positional notation prescribes (independent big-integer reference)
+	if want := al.RefBase58(b); want != s {
+		rep.Violate("C07:b58:encode_ref", "base58.Encode differs from the base-58 positional notation of the bytes (leading zero bytes as '1')",
+			map[string]interface{}{"bytes": vh.Hex(b), "encoded": s, "required": want})
+	}
 	// monitor: round trip
 	if d := base58.Decode(s); !bytes.Equal(d, b) {
 		rep.Violate("C07:b58:decode_encode", "base58.Decode(Encode(b)) != b",
@@ -88,7 +117,25 @@ func b58Decode(s string, corr bool) []byte {
 			foreign = true
 		}
 	}
-	rep.Count("b58dec", "d"+s, !foreign && len(s) > 0)
+	rep.Count("b58dec:"+fam, "d"+s, !foreign && len(s) > 0)
+	if len(s) > 3 && len(s) <= 90 {
+		remember("base58.Decode("+s+")", func() string { return vh.Hex(base58.Decode(s)) })
+	}
+	if want := al.RefBase58Decode(s); !bytes.Equal(d, want) {
+		rep.Violate("C07:b58:decode_ref", "base58.Decode differs from the byte-wise table semantics (a byte outside the alphabet gives the empty result)",
+			map[string]interface{}{"string": s, "string_hex": vh.Hex([]byte(s)), "decoded": vh.Hex(d), "required": vh.Hex(want)})
+	}
+	if len(d) > 0 && len(s) < 200 { // the result is the caller's: overwriting it must not change what the next call returns
+		keep := append([]byte(nil), d...)
+		for i := range d {
+			d[i] ^= 0xff
+		}
+		if d2 := base58.Decode(s); !bytes.Equal(d2, keep) {
+			rep.Violate("C07:stateless", "base58.Decode(s) changed after the caller overwrote the slice returned by the previous call",
+				map[string]interface{}{"string": s, "first": vh.Hex(keep), "again": vh.Hex(d2)})
+		}
+		copy(d, keep)
+	}
 	if foreign {
 		if len(d) != 0 {
 			rep.Violate("C07:b58:foreign", "Decode of a string with a foreign character is not empty", map[string]interface{}{"string": s, "decoded": vh.Hex(d)})
@@ -113,7 +160,7 @@ func checkDecode(s string, corr bool) {
 	// independent acceptance predicate
 	d := base58.Decode(s)
 	want := len(d) >= 5 && bytes.Equal(sha256d(d[:len(d)-4])[:4], d[len(d)-4:])
-	rep.Count("chkdec", "c"+s, len(d) >= 5)
+	rep.Count("chkdec:"+fam, "c"+s, len(d) >= 5)
 	cls := 0
 	if err == base58.ErrInvalidFormat {
 		cls = 1
@@ -125,6 +172,17 @@ func checkDecode(s string, corr bool) {
 	if want != (err == nil) {
 		rep.Violate("C07:check:accept_iff", "CheckDecode acceptance differs from 'last four bytes are the double-SHA256 prefix of the rest'",
 			map[string]interface{}{"string": s, "decoded": vh.Hex(d), "accepted": err == nil, "required": want})
+	}
+	if err == nil && len(res) > 0 { // the payload is the caller's: overwriting it must not change what the next call returns
+		keep := append([]byte(nil), res...)
+		for i := range res {
+			res[i] ^= 0xff
+		}
+		if r2, v2, e2 := base58.CheckDecode(s); e2 != nil || v2 != ver || !bytes.Equal(r2, keep) {
+			rep.Violate("C07:stateless", "base58.CheckDecode(s) changed after the caller overwrote the payload returned by the previous call",
+				map[string]interface{}{"string": s, "first": vh.Hex(keep), "again": vh.Hex(r2), "history": "r1 := CheckDecode(s); overwrite r1; CheckDecode(s)"})
+		}
+		copy(res, keep)
 	}
 	if err == nil && (ver != d[0] || !bytes.Equal(res, d[1:len(d)-4])) {
 		rep.Violate("C07:check:fields", "CheckDecode returned wrong version/payload", map[string]interface{}{"string": s, "decoded": vh.Hex(d), "version": ver, "payload": vh.Hex(res)})
@@ -139,7 +197,7 @@ func checkEncode(p []byte, ver byte, corr bool) string {
 	before := append([]byte(nil), backing...)
 	s := base58.CheckEncode(in, ver)
 	pure("base58.CheckEncode", before, backing, vh.Hex(p))
-	rep.Count("chkenc", fmt.Sprintf("k%d:%s", ver, p), true)
+	rep.Count("chkenc:"+fam, fmt.Sprintf("k%d:%s", ver, p), true)
 	r, v, err := base58.CheckDecode(s)
 	if err != nil || v != ver || !bytes.Equal(r, p) {
 		rep.Violate("C07:check:roundtrip", "CheckDecode(CheckEncode(p, v)) != (p, v)", map[string]interface{}{"payload": vh.Hex(p), "version": ver, "string": s, "err": fmt.Sprint(err)})
@@ -256,7 +314,19 @@ func bechDecode(s string, corr bool) {
 		return
 	}
 	ok, rh, rd := refDecode(s)
-	rep.Count("bechdec", "bd"+s, ok)
+	rep.Count("bechdec:"+fam, "bd"+s, ok)
+	if err == nil && len(data) > 0 {
+		keep := append([]byte(nil), data...)
+		for i := range data {
+			data[i] ^= 0xff
+		}
+		if _, d2, e2 := bech32.Decode(s); e2 != nil || !bytes.Equal(d2, keep) {
+			rep.Violate("C07:stateless", "bech32.Decode(s) changed after the caller overwrote the slice returned by the previous call",
+				map[string]interface{}{"string": s, "first": vh.Hex(keep), "again": vh.Hex(d2)})
+		}
+		copy(data, keep)
+	}
+	remember("bech32.Decode("+s+")", func() string { h, d, e := bech32.Decode(s); return fmt.Sprint(h, "|", vh.Hex(d), "|", e == nil) })
 	if ok != (err == nil) || ok && (rh != hrp || !bytes.Equal(rd, data)) {
 		rep.Violate("C07:bech32:decode_bip173", "bech32.Decode disagrees with BIP173",
 			map[string]interface{}{"string": s, "accepted": err == nil, "required_accept": ok, "hrp": hrp, "data": vh.Hex(data)})
@@ -293,7 +363,7 @@ func bechEncode(hrp string, data []byte, spare int, corr bool) string {
 			valid = false
 		}
 	}
-	rep.Count("bechenc", "be"+hrp+"|"+string(data), valid)
+	rep.Count("bechenc:"+fam, "be"+hrp+"|"+string(data), valid)
 	if valid != (err == nil) {
 		rep.Violate("C07:bech32:encode_accept", "bech32.Encode acceptance differs from 'all data values < 32'", map[string]interface{}{"hrp": hrp, "data": vh.Hex(data), "err": fmt.Sprint(err)})
 	}
@@ -367,6 +437,17 @@ func convert(data []byte, from, to uint8, pad bool, corr bool) {
 		return
 	}
 	pure("bech32.ConvertBits", before, backing, vh.Hex(data))
+	if err == nil && len(out) > 0 {
+		keep := append([]byte(nil), out...)
+		for i := range out {
+			out[i] ^= 0xff
+		}
+		if o2, e2 := bech32.ConvertBits(in, from, to, pad); e2 != nil || !bytes.Equal(o2, keep) {
+			rep.Violate("C07:stateless", "bech32.ConvertBits changed its answer after the caller overwrote the slice returned by the previous call",
+				map[string]interface{}{"data": vh.Hex(data), "from": from, "to": to, "pad": pad, "first": vh.Hex(keep), "again": vh.Hex(o2)})
+		}
+		copy(out, keep)
+	}
 	inRange := from >= 1 && from <= 8 && to >= 1 && to <= 8
 	fits := true
 	for _, b := range data {
@@ -374,7 +455,7 @@ func convert(data []byte, from, to uint8, pad bool, corr bool) {
 			fits = false
 		}
 	}
-	rep.Count("convert", fmt.Sprintf("cv%d.%d.%v.%s", from, to, pad, data), inRange && len(data) > 0)
+	rep.Count("convert:"+fam, fmt.Sprintf("cv%d.%d.%v.%s", from, to, pad, data), inRange && len(data) > 0)
 	if !inRange {
 		if err == nil {
 			rep.Violate("C07:bech32:convert_range", "ConvertBits accepted a bit-group size outside 1..8", map[string]interface{}{"from": from, "to": to})
@@ -429,6 +510,7 @@ func main() {
 
 	// --- base58: exhaustive small scopes on the implementation (monitors), sampled for the model
 	r = rng.Fork("b58")
+	fam = "small-and-random"
 	b58Encode(nil, true)
 	for a := 0; a < 256; a++ {
 		b58Encode([]byte{byte(a)}, a%8 == 0 || a < 4)
@@ -485,6 +567,7 @@ func main() {
 	// every length around machine-word boundaries: extreme and random digit strings / byte strings
 	// (a fixed-width fast path would wrap exactly here: 58^10 < 2^64 < 58^11, 58^21 < 2^128 < 58^22)
 	r = rng.Fork("b58-boundaries")
+	fam = "word-boundaries"
 	for L := 1; L <= 48; L++ {
 		top := bytes.Repeat([]byte{'z'}, L)
 		b58Decode(string(top), L <= 24)
@@ -515,8 +598,77 @@ func main() {
 		}
 	}
 
+	// every two-byte string over the FULL byte alphabet (well-formed two-byte UTF-8 sequences included)
+	r = rng.Fork("b58-two-bytes")
+	fam = "two-bytes-and-rune-aliases"
+	for a := 0; a < 256; a++ {
+		for b := 0; b < 256; b++ {
+			b58Decode(string([]byte{byte(a), byte(b)}), a >= 0xc2 && a <= 0xdf && b >= 0x80 && b <= 0xbf && r.Intn(40) == 0)
+		}
+	}
+	// one character of an alphabet string replaced by a multi-byte code point whose low eight bits equal it
+	// (a decoder that walks the string by code point and narrows to a byte reads the original character)
+	for i, L := range []int{1, 2, 3, 11, 34, 51, 52, 111} {
+		sb := make([]byte, L)
+		for j := range sb {
+			sb[j] = b58Alphabet[1+r.Intn(57)]
+		}
+		if i%2 == 1 {
+			sb[0] = '1'
+		}
+		for _, pos := range []int{0, L / 2, L - 1} {
+			for k, alias := range al.RuneAliases(string(sb), pos) {
+				b58Decode(alias, k < 2 || L == 34)
+			}
+		}
+	}
+	// runs of the zero digit in the interior of the digit string (a multi-digit chunk that is entirely zero),
+	// at every distance from the end and of every length up to 24
+	r = rng.Fork("b58-zero-digits")
+	fam = "interior-zero-digits"
+	for k := 1; k <= 24; k++ {
+		for _, xl := range []int{1, 3, 10, 11} {
+			for _, yl := range []int{0, 1, 9, 10, 11, 19, 20, 21, 30} {
+				sb := make([]byte, 0, xl+k+yl)
+				for j := 0; j < xl; j++ {
+					sb = append(sb, b58Alphabet[1+r.Intn(57)])
+				}
+				sb = append(sb, bytes.Repeat([]byte{'1'}, k)...)
+				for j := 0; j < yl; j++ {
+					sb = append(sb, b58Alphabet[r.Intn(58)])
+				}
+				corr := (k == 9 || k == 10 || k == 11 || k == 20) && xl == 3 && (yl == 10 || yl == 20)
+				b58Decode(string(sb), corr)
+				b58Encode(al.RefBase58Decode(string(sb)), corr)
+			}
+		}
+	}
+
+	// long runs of leading zero bytes / leading '1' characters, around the widths a narrow counter would wrap at
+	r = rng.Fork("b58-zero-runs")
+	fam = "leading-zero-runs"
+	for _, n := range []int{7, 8, 63, 64, 127, 128, 254, 255, 256, 257, 258, 300, 511, 512, 513} {
+		for ti, tail := range [][]byte{nil, {1}, {0xff, 0, 1}, r.Bytes(1 + r.Intn(9))} {
+			b := append(make([]byte, n), tail...)
+			b58Encode(b, ti < 2 && (n >= 254 && n <= 258 || n == 64 || n == 512))
+			str := append(bytes.Repeat([]byte{'1'}, n), []byte(base58.Encode(tail))...)
+			b58Decode(string(str), ti < 2 && (n >= 254 && n <= 258 || n == 128))
+		}
+	}
+
 	// --- base58check
 	r = rng.Fork("check")
+	fam = "base58check"
+	// valid checksums over bodies shorter than a version byte + payload: the empty body (4 decoded bytes: must be
+	// refused as too short) and a body that is the version byte alone (accepted with an empty payload)
+	checkDecode(base58.Encode(sha256d(nil)[:4]), true)
+	for _, v := range []byte{0, 1, 5, 0x6f, 0x80, 0xff} {
+		body := []byte{v}
+		checkDecode(base58.Encode(append(body, sha256d(body)[:4]...)), true)
+		body2 := []byte{v, 0}
+		checkDecode(base58.Encode(append(body2, sha256d(body2)[:4]...)), v%2 == 0)
+		checkDecode(base58.Encode(append([]byte{v}, sha256d(nil)[:4]...)), v == 0) // checksum of the wrong (empty) body
+	}
 	nc := cfg.Scale(60, 600)
 	for i := 0; i < nc; i++ {
 		n := vh.Pick(r, []int{0, 1, 20, 20, 20, 32, 33, r.Intn(80)})
@@ -549,6 +701,7 @@ func main() {
 
 	// --- bech32
 	r = rng.Fork("bech32")
+	fam = "bip173-vectors-random-mutations"
 	for _, s := range bip173Valid {
 		bechDecode(s, true)
 	}
@@ -618,6 +771,73 @@ func main() {
 		}
 		bechDecode(string(sb), true)
 	}
+	// white space and control characters around an otherwise valid string (a lenient Decode that trims its input
+	// would accept them), and every total length around the 90-character limit and the 8-character minimum
+	r = rng.Fork("bech32-edges")
+	fam = "whitespace-and-length-edges"
+	for i, base := range []string{"a12uel5l", "A12UEL5L", "abcdef1qpzry9x8gf2tvdw0s3jn54khce6mua7lmqqqxw", refEncode("bc", []byte{0, 14, 20, 15, 7, 13, 26, 0, 25, 18, 6, 11, 13, 8, 21, 4, 20, 3, 17, 2, 29, 3, 12, 29, 3, 4, 15, 24, 20, 6, 14, 30, 22})} {
+		for j, w := range []string{" ", "\n", "\t", "\r\n", "\x00", "\x0b", "\xa0", "  "} {
+			bechDecode(w+base, i < 2 || j < 2)
+			bechDecode(base+w, i < 2 || j < 2)
+			bechDecode(w+base+w, j == 0)
+		}
+	}
+	// code points that Unicode case mapping folds to ASCII letters (U+212A KELVIN SIGN -> k, U+0130 -> i when
+	// lower-casing; U+017F LONG S -> S, U+0131 DOTLESS I -> I when upper-casing) in place of that letter, in the
+	// human-readable part and in the data part, in the lower- and in the upper-case rendering
+	for _, hrp := range []string{"kiki", "ski", "bc", "k"} {
+		data := []byte{22, 16, 22, 0, 31, 16, 22} // k s k q l s k
+		lowS := refEncode(hrp, data)
+		for _, sv := range []string{lowS, strings.ToUpper(lowS)} {
+			for _, sub := range [][2]string{{"k", "\u212a"}, {"K", "\u212a"}, {"i", "\u0130"}, {"I", "\u0130"}, {"s", "\u017f"}, {"S", "\u017f"}, {"i", "\u0131"}, {"I", "\u0131"}} {
+				for n := 1; n <= 3; n++ {
+					if m := strings.Replace(sv, sub[0], sub[1], n); m != sv {
+						bechDecode(m, true)
+					}
+				}
+				if k := strings.LastIndex(sv, sub[0]); k >= 0 {
+					bechDecode(sv[:k]+sub[1]+sv[k+1:], true)
+				}
+			}
+		}
+	}
+	for total := 6; total <= 12; total++ { // hrp of one character: data length total-8 (negative: cannot exist)
+		if total >= 8 {
+			data := make([]byte, total-8)
+			for j := range data {
+				data[j] = byte(r.Intn(32))
+			}
+			s := refEncode("x", data)
+			bechDecode(s, true)
+			bechDecode(strings.ToUpper(s), total%2 == 0)
+			bechDecode(s[:len(s)-1], true) // one short
+		}
+	}
+	for _, hl := range []int{1, 2, 40, 82, 83, 84} {
+		for total := 87; total <= 93; total++ {
+			dl := total - hl - 7
+			if dl < 0 {
+				continue
+			}
+			hrp := make([]byte, hl)
+			for j := range hrp {
+				hrp[j] = byte('a' + r.Intn(26))
+			}
+			data := make([]byte, dl)
+			for j := range data {
+				data[j] = byte(r.Intn(32))
+			}
+			s := refEncode(string(hrp), data) // valid checksum whatever the length
+			bechDecode(s, total >= 89 && total <= 92)
+			bechDecode(strings.ToUpper(s), total == 90 || total == 91)
+		}
+	}
+	// an upper-case or empty human-readable part handed to Encode (outside BIP173's domain: observed only)
+	bechEncode("BC", []byte{1, 2, 3}, 0, true)
+	bechEncode("", []byte{}, 0, true)
+	bechEncode("", []byte{5}, 6, true)
+
+	fam = "capacity-sweep"
 	// purity sweep over capacities (the C07 search family)
 	for spare := 0; spare <= 12; spare++ {
 		for dl := 0; dl <= 4; dl++ {
@@ -631,6 +851,7 @@ func main() {
 
 	// --- ConvertBits: every (from, to) in 0..9 x pad
 	r = rng.Fork("convert")
+	fam = "all-group-sizes"
 	nv := cfg.Scale(2, 12)
 	for from := 0; from <= 9; from++ {
 		for to := 0; to <= 9; to++ {
@@ -651,6 +872,36 @@ func main() {
 			}
 		}
 	}
+	fam = "incomplete-groups"
+	// every (from, to), every input length 0..17: all-zero input (an incomplete trailing group of every possible
+	// size, all zero: legal only up to 4 bits), only the very last bit set, and all ones
+	for from := 1; from <= 8; from++ {
+		for to := 1; to <= 8; to++ {
+			for n := 0; n <= 17; n++ {
+				for pat := 0; pat < 3; pat++ {
+					data := make([]byte, n)
+					switch pat {
+					case 1:
+						if n == 0 {
+							continue
+						}
+						data[n-1] = 1
+					case 2:
+						if n == 0 {
+							continue
+						}
+						for j := range data {
+							data[j] = byte(1<<uint(from) - 1)
+						}
+					}
+					corr := (from == 5 && to == 8) || (from == 8 && to == 5) || (from*7+to*3+n)%11 == 0 && pat != 2
+					convert(data, uint8(from), uint8(to), false, corr && n <= 9)
+					convert(data, uint8(from), uint8(to), true, corr && n <= 4 && pat == 1)
+				}
+			}
+		}
+	}
+	fam = "8-5-round-trips"
 	for i := 0; i < cfg.Scale(100, 1500); i++ { // 8 <-> 5 round trips, with all trailing-bit patterns
 		data := r.Bytes(r.Intn(70))
 		convert(data, 8, 5, true, i%3 == 0)
@@ -659,6 +910,15 @@ func main() {
 			five[j] = byte(r.Intn(32))
 		}
 		convert(five, 5, 8, false, i%3 == 1)
+	}
+
+	// the same calls again, after everything else has run: the functions keep no state
+	for _, rc := range replays {
+		if got := rc.run(); got != rc.want {
+			rep.Violate("C07:stateless", "a repeated call gave a different result than the first time (state left over between calls)",
+				map[string]interface{}{"call": rc.what, "first": rc.want, "again": got})
+			break
+		}
 	}
 
 	rep.Cases = cases.Len()
